@@ -21,12 +21,21 @@
 //!   d  short random strings over a critical alphabet (`d.short`), concatenations of
 //!      declaration / DTD flavoured pieces (`d.pieces`); tier thorough: every string of length <= 4
 //!      over a 12-letter alphabet
+//!   e  explicit layouts (lex_layout.rs, the mirror of `LToken` / `LDecl` / `LDoc` of the Lean side):
+//!      every layout freedom of C02 drawn independently — quote per attribute, white space before
+//!      attributes, around `=`, before `>` / `/>`, in end tags and PIs, between and after top-level
+//!      items, XML declaration layouts, BOM — with the tokens the text must lex to; drawn from an
+//!      own generator state AFTER the other families (their cases do not depend on it)
+//! Statistics `lay.*` (lex_layout::layout_stats): per layout freedom, measured on the tokens of
+//! every input of every family.
 //! Oracle (implementation only): every span of every token is a slice of the input at its
-//! offset (C17), the error position is inside the input (C17), the tokenizer never panics (C03).
+//! offset (C17), the error position is inside the input (C17), the tokenizer never panics (C03);
+//! family e: the tokenizer returns exactly the tokens the layout stands for (C02).
 use crate::build_gen::{render_document, render_fragment};
 use crate::build_obs::dump_tokens;
 use crate::build_render::RCfg;
 use crate::common::{dec, enc, guarded, Rng, Sink};
+use crate::lex_layout::{check_layout, gen_layout, layout_stats};
 use crate::ser_gen::gen_params;
 use crate::tree::*;
 use std::collections::HashSet;
@@ -233,6 +242,7 @@ impl<'a> Ctx<'a> {
                 }
             }
         }
+        let _ = guarded(|| layout_stats(xml, fragment, sink));
         match guarded(|| span_problems(xml, fragment)) {
             None => sink.fail("C03", "C03:tokenizer-panics", "xmlparser::Tokenizer panicked (second walk)", &[request.clone()]),
             Some(ps) => {
@@ -749,6 +759,30 @@ pub fn run(seed: u64, count: usize, tier: &str, sink: &mut Sink) {
         };
         if done {
             produced += 1;
+        }
+    }
+    // Family e: explicit layouts, from an own generator state
+    let mut lrng = Rng::new(seed ^ 0xE1A7_0C02);
+    let wanted = count / 8 + if count > 0 { 40 } else { 0 };
+    let (mut produced, mut attempts) = (0, 0);
+    while produced < wanted && attempts < wanted * 5 + 100 {
+        attempts += 1;
+        let l = gen_layout(&mut lrng);
+        if !ctx.one("e", &l.text, l.fragment) {
+            continue;
+        }
+        produced += 1;
+        ctx.sink.stat(if l.fragment { "gen.e.fragment" } else { "gen.e.document" });
+        for k in &l.stats {
+            ctx.sink.stat(k);
+        }
+        match guarded(|| check_layout(&l)) {
+            Some(None) => ctx.sink.stat("oracle.e.tokens-as-laid-out"),
+            Some(Some(what)) => {
+                let mode = if l.fragment { "frag" } else { "doc" };
+                ctx.sink.fail("C02", "C02:layout-changes-tokens", &what, &[format!("lex {} {}", mode, enc(&l.text))]);
+            }
+            None => {}
         }
     }
 }
